@@ -239,6 +239,35 @@ func C15(c *fw.Ctx) {
 				}
 			}
 		}
+		// projects around the limits of the library (type references: 2^20 steps of the walk along all chains, 2^24 for the squares of
+		// the numbers of reached types): whether a project is within a limit must not depend on the order of its TYPE blocks
+		for _, n := range []int{24, 25, 26, 27, 28, 29} {
+			add(fmt.Sprintf("limit-ladder-%d", n), typeLadder(n, 0, 0))
+		}
+		for _, n := range []int{17, 18, 19, 20, 21} {
+			var sb strings.Builder
+			sb.WriteString("JSIGHT 0.3\n")
+			for i := 1; i <= n; i++ {
+				if i < n {
+					sb.WriteString(fmt.Sprintf("TYPE @d%d\n  {\"a\": @d%d, \"b\": @d%d}\n", i, i+1, i+1))
+				} else {
+					sb.WriteString(fmt.Sprintf("TYPE @d%d\n  {\"z\": 1}\n", i))
+				}
+			}
+			add(fmt.Sprintf("limit-doubling-chain-%d", n), []byte(sb.String()+"GET /a\n  200 @d1\n"))
+		}
+		for _, n := range []int{355, 362, 366, 370, 380} {
+			var sb strings.Builder
+			sb.WriteString("JSIGHT 0.3\n")
+			for i := 1; i <= n; i++ {
+				if i < n {
+					sb.WriteString(fmt.Sprintf("TYPE @c%d\n  {\"a\": @c%d}\n", i, i+1))
+				} else {
+					sb.WriteString(fmt.Sprintf("TYPE @c%d\n  {\"z\": 1}\n", i))
+				}
+			}
+			add(fmt.Sprintf("limit-chain-%d", n), []byte(sb.String()+"GET /a\n  200 any\n"))
+		}
 		r := gen.Rng(c.Seed, c.ID, "models")
 		for i := 0; i < c.Pick(300, 6000); i++ {
 			m := model.Generate(r, model.FullSize)
